@@ -12,7 +12,7 @@ RULE = ('case = one real step in User mode on (word, set, IT position, secure/no
         'on/off) with every banked/system register pre-filled with random values; words: all 2^16 Thumb-16 words, '
         'solved members of every ARM/Thumb-32 decoder path, random words, 5-instruction sequences; the full state '
         'diff is judged. Second part: LDRT/STRT-family words built from the architecture encodings executed in '
-        'privileged modes on a privileged-only MPU region. non-trivial = the step changed something besides the PC '
+        'privileged modes on a privileged-only MPU region. every system-level / bank-naming instruction row with all mode numbers, masks and P/U/W values x registers {0,1,SP,LR,PC} in User mode; LDRT/STRT-family also unaligned, straddling the protected region, with the SP as base, and on addresses only the background region covers (SCTLR.BR = 1, no covering region). non-trivial = the step changed something besides the PC '
         'or took an exception; distinct = (set, path id / word>>4, outcome class, context)')
 ASSUMPTIONS = ['the unprivileged location set: R0-R14_usr, PC, APSR.NZCVQ/GE, CPSR.E/IT/T/J, event register, wait '
                'flags, memory the harness mapped as user-writable',
